@@ -149,16 +149,17 @@ class PersistentMixin(Module):
         data = {k: v.export_value() for k, v in self.parameters.items()
                 if getattr(v, 'persistent', False)}
         if data != self.persistentData:
-            self.persistentData = data
             persistentdir = self.persistentFile.parent
             tmpfile = self.persistentFile.parent / (self.persistentFile.name + '.tmp')
             if not persistentdir.is_dir():
                 persistentdir.mkdir(parents=True, exist_ok=True)
             try:
                 with open(tmpfile, 'w', encoding='utf-8') as f:
-                    json.dump(self.persistentData, f, indent=2)
+                    json.dump(data, f, indent=2)
                     f.write('\n')
                 os.rename(tmpfile, self.persistentFile)
+                # only now the data is on disk: after a failure the next call tries again
+                self.persistentData = data
             finally:
                 try:
                     os.remove(tmpfile)
